@@ -1,14 +1,15 @@
 """Unit simplify_rules (C01): the per-operator rewrite rules of simplify.rs, verbatim, against builder contracts."""
 NAME = "simplify_rules"
 PROPERTIES = ["C01"]
-SPECS = ["contracts/context.spec", "contracts/nodes.spec", "contracts/simplify.spec"]
+SPECS = ["contracts/context.spec", "contracts/nodes.spec", "contracts/simplify.spec", "contracts/transform.spec"]
 
 NODES = "patronus/src/expr/nodes.rs"
 CTX = "patronus/src/expr/context.rs"
 TYPES = "patronus/src/expr/types.rs"
+TRANS = "patronus/src/expr/transform.rs"
 SIMP = "patronus/src/expr/simplify.rs"
 
-BUILDERS = ["and", "or", "xor", "shift_left", "arithmetic_shift_right", "shift_right", "add", "sub", "mul",
+BUILDERS = ["add_expr", "and", "or", "xor", "shift_left", "arithmetic_shift_right", "shift_right", "add", "sub", "mul",
             "equal", "ite", "not", "negate", "concat", "slice", "zero_extend", "sign_extend", "bv_lit", "bit_vec_val",
             "zero", "ones", "get_true", "get_false"]
 
@@ -52,4 +53,10 @@ def build(ub, algebra_text):
     cfg = {"receivers": {"ctx": "node"}, "into_target": "BitVecValue"}
     for r in RULES:
         ub.emit_fn(SIMP, r, "verify", cfg=cfg)
+    ub.emit_assumed("carved_and_mask")
+    cfg_and = dict(cfg, carve=[{"token": "bit_set_intervals", "call": "carved_and_mask(ctx, expr, lit)", "stub": "carved_and_mask"}])
+    ub.emit_fn(SIMP, "simplify_bv_and", "verify", cfg=cfg_and)
+    ub.emit_fn(SIMP, "simplify", "verify", cfg=dict(cfg, slice_scrutinee="children", split={"nth": 0, "on": "old(ctx).nodes()[expr]"}))
+    ub.emit_fn(TRANS, "update_expr_children", "verify",
+               cfg=dict(cfg, slice_scrutinee="children", split={"nth": 0, "on": "old(ctx).nodes()[expr_ref]"}))
     ub.out("} // verus!\nfn main() {}\n")
